@@ -176,6 +176,14 @@ func (vc *VC) evalBin(x *EBin, env *Env) SVal {
 
 func (vc *VC) specEqual(a, b SVal) string {
 	isNil := func(v SVal) bool { return v.K == KRef && v.S == "0" }
+	// struct-typed fields read lazily: compare the stored struct values, not their addresses
+	force := func(v SVal) SVal {
+		if v.K == KPtr && v.LazyMem != nil {
+			return vc.loadSpec(v, v.T.Underlying().(*types.Pointer).Elem(), v.LazyMem)
+		}
+		return v
+	}
+	a, b = force(a), force(b)
 	switch {
 	case isNil(b) && (a.K == KSlice || a.K == KPtr || a.K == KString):
 		return eq(a.obj(), "0")
@@ -193,8 +201,8 @@ func (vc *VC) specEqual(a, b SVal) string {
 			unsup("comparison of slice with non-slice")
 		}
 		// comparison with a string literal is by content
-		if a.K == KString && b.K == KString && (strings.HasPrefix(a.obj(), "$S") || strings.HasPrefix(b.obj(), "$S")) {
-			return vc.stringEq(a, b)
+		if a.K == KString && b.K == KString {
+			return vc.stringEq(a, b) // Go's == on strings: equal content
 		}
 		return and(eq(a.obj(), b.obj()), eq(a.off(), b.off()), eq(a.ln(), b.ln()))
 	case KPtr:
@@ -245,6 +253,7 @@ func (vc *VC) evalField(v SVal, name string, env *Env) SVal {
 				switch st.Field(i).Type().Underlying().(type) {
 				case *types.Struct:
 					// stay a pointer so that further selections read lazily
+					fp.LazyMem = env.mem
 					return fp
 				}
 				return vc.loadSpec(fp, st.Field(i).Type(), env.mem)
@@ -423,6 +432,30 @@ func (vc *VC) evalCall(x *ECall, env *Env) SVal {
 			unsup("ghost(key, x)")
 		}
 		return mkInt(vc.leafLoad(env.mem, "ghost."+id.Name, SInt, objOf(arg(1)), "0"))
+	case "cast":
+		// cast(x, T): the pointer *T (T a named type of the package under verification) to object x
+		id, ok := x.Args[1].(*EIdent)
+		if !ok || vc.fn.Pkg == nil {
+			unsup("cast(x, T)")
+		}
+		tn := vc.fn.Pkg.Pkg.Scope().Lookup(id.Name)
+		if tn == nil {
+			unsup("cast: no type %s in package %s", id.Name, vc.fn.Pkg.Pkg.Path())
+		}
+		p := ptrV(types.NewPointer(tn.Type()), objOf(arg(0)), "0")
+		p.Key = ptrKeyFor(tn.Type())
+		return p
+	case "gstr":
+		// gstr(key, x): a ghost STRING of object x: three ghost cells (view object, offset, length)
+		id, ok := x.Args[0].(*EIdent)
+		if !ok {
+			unsup("gstr(key, x)")
+		}
+		k := objOf(arg(1))
+		return stringV(types.Typ[types.String],
+			vc.leafLoad(env.mem, "ghost."+id.Name+".o", SInt, k, "0"),
+			vc.leafLoad(env.mem, "ghost."+id.Name+".f", SInt, k, "0"),
+			vc.leafLoad(env.mem, "ghost."+id.Name+".l", SInt, k, "0"))
 	case "ite":
 		c := arg(0)
 		return vc.iteVal(c.S, arg(1), arg(2))
